@@ -270,6 +270,6 @@ Fixpoint viol (p : pt) (en : env) : list eclass :=
   | Single b => viol b en
   | Pass b => viol b en
   end.
-(* a refusal of class c is legitimate iff some violated condition has that class (or admits any class) *)
+(* a refusal of class c is legitimate iff some violated condition has that class (or allows any class) *)
 Definition may_reject (c : eclass) (p : pt) (en : env) : bool :=
   existsb (fun v => eclass_eqb v c || eclass_eqb v EAnyc) (viol p en).
